@@ -3,6 +3,8 @@
 package props
 
 import (
+	"context"
+	"github.com/docker/docker/errdefs"
 	"net"
 	"io"
 	"errors"
@@ -61,6 +63,16 @@ var c14Invalid = []c14Shape{
 	{Name: "unsupported-modifier", Query: `count_over_time({container="c0"}[3s]) + on (container) count_over_time({container="c1"}[3s])`, Metric: true},
 	{Name: "bad-pattern-log", Query: `{container="c0"} | pattern "<a><b>"`, Limit: -1},
 	{Name: "bad-template-log", Query: `{container=~"c.*"} | label_format x="{{ .foo"`, Limit: -1},
+	// ip() patterns that denote no address, network or range: reversed and mixed-family ranges included
+	{Name: "bad-ip-reversed-range", Query: `{container=~"c.*"} |= ip("10.0.0.9-10.0.0.1")`, Limit: -1},
+	{Name: "bad-ip-reversed-range-neq", Query: `{container=~"c.*"} != ip("10.0.0.9-10.0.0.1")`, Limit: -1},
+	{Name: "bad-ip-mixed-range", Query: `{container="c0"} |= ip("10.0.0.1-::ffff")`, Limit: -1},
+	{Name: "bad-ip-mixed-range-label", Query: `{container=~"c.*"} | logfmt | v != ip("::1-10.0.0.9")`, Limit: -1},
+	{Name: "bad-ip-reversed-range-label", Query: `{container=~"c.*"} | logfmt | v = ip("192.168.1.200-192.168.1.100")`, Limit: -1},
+	{Name: "bad-ip-octet", Query: `{container="c0"} |= ip("10.0.0.300")`, Limit: -1},
+	{Name: "bad-ip-prefix", Query: `{container="c0"} | logfmt | v = ip("10.0.0.0/33")`, Limit: -1},
+	{Name: "bad-ip-half-range", Query: `{container="c0"} |= ip("10.0.0.1-")`, Limit: -1},
+	{Name: "bad-ip-reversed-range-metric", Query: `count_over_time({container="c0"}[3s]) + count_over_time({container="c1"} != ip("10.0.0.9-10.0.0.1") [3s])`, Metric: true},
 	{Name: "vecagg-over-unsupported", Query: `sum(absent_over_time({container=~"c.*"}[3s]))`, Metric: true},
 }
 
@@ -97,14 +109,20 @@ var errC14 = errors.New("verif: injected docker fault")
 var c14ReadErrs = []error{errC14, fmt.Errorf("read unix @->/var/run/docker.sock: %w", io.ErrUnexpectedEOF),
 	fmt.Errorf("verif: http2: stream closed: %w", io.EOF), &net.OpError{Op: "read", Net: "unix", Err: errors.New("connection reset by peer")}}
 
+// the daemon's own error classes: a container removed between the listing and the logs request is "not
+// found", a daemon shutting down is "unavailable"; whatever the class, the query has failed
+var c14OpenErrs = []error{errC14, errdefs.NotFound(errors.New("No such container: id0")), errdefs.Unavailable(errors.New("daemon is shutting down")),
+	errdefs.Conflict(errors.New("container is marked for removal")), errdefs.Cancelled(context.Canceled), errdefs.NotImplemented(errors.New("configured logging driver does not support reading")),
+	errdefs.InvalidParameter(errors.New("invalid value for until")), errdefs.System(io.ErrUnexpectedEOF)}
+
 // applyFault installs the fault and returns a function deciding whether it fired.
 func applyFault(fd *FakeDocker, inv []CSpec, f c14Fault) func() bool {
 	switch f.Kind {
 	case "list":
-		fd.ListErr = errC14
+		fd.ListErr = c14OpenErrs[(f.At+f.Container)%len(c14OpenErrs)]
 		return func() bool { _, _, fired, _ := fd.Ledger(); return fired > 0 }
 	case "open":
-		fd.Containers[f.Container].LogsErr = errC14
+		fd.Containers[f.Container].LogsErr = c14OpenErrs[(f.At+f.Container)%len(c14OpenErrs)]
 		return func() bool { _, _, fired, _ := fd.Ledger(); return fired > 0 }
 	case "read":
 		fd.Containers[f.Container].Plan.FailAt = f.At
@@ -230,9 +248,12 @@ func runC14(r *vk.Run) {
 			runOne(c, inv, sh, nil, &baseline)
 			c.Seen("shapes", sh.Name)
 			var faults []c14Fault
-			faults = append(faults, c14Fault{Kind: "list"})
+			faults = append(faults, c14Fault{Kind: "list", At: c.Idx})
 			for i := range inv {
-				faults = append(faults, c14Fault{Kind: "open", Container: i})
+				// every class of daemon error
+				for cls := range c14OpenErrs {
+					faults = append(faults, c14Fault{Kind: "open", Container: i, At: cls + len(c14OpenErrs) - i})
+				}
 				data := EncodeFrames(inv[i].Frames)
 				starts, ends := FrameBounds(inv[i].Frames)
 				for at := 0; at < len(data); at++ {
@@ -267,7 +288,7 @@ func runC14(r *vk.Run) {
 				baseline := ""
 				for _, p := range permutations(n) {
 					for fail := 0; fail < n; fail++ {
-						runOne(c, inv, sh, &c14Fault{Kind: "open", Container: fail, Order: p}, &baseline)
+						runOne(c, inv, sh, &c14Fault{Kind: "open", Container: fail, Order: p, At: c.Idx + fail + len(p)*p[0]}, &baseline)
 						c.Seen("orders", fmt.Sprint(p))
 					}
 					// read error in one container under this order
